@@ -900,6 +900,8 @@ class _FuncAnalysis:
         return None
 
     def builtin_call(self, name: str, c: ast.Call, local: tuple) -> set[Esc]:
+        if name == "str" and (len(c.args) >= 2 or any(k.arg in ("encoding", "errors") for k in c.keywords)):
+            return self.decode_site(c, c.args[1:], local)  # str(bytes, encoding[, errors]) decodes
         if name in NO_RAISE_BUILTINS:
             return set()
         if name == "int":
@@ -914,12 +916,25 @@ class _FuncAnalysis:
             if ka and ka <= {"str", "Any"} and "str" in ka:
                 arg = ast.unparse(c.args[0])
                 ok = None
-                for atom, val in self.facts(c, local):
-                    if val and atom == f"{arg}.isdecimal()":
-                        ok = "dominated by str.isdecimal()"
+                fs = self.facts(c, local)
+                if any(val and atom == f"{arg}.isdecimal()" for atom, val in fs):
+                    # CPython refuses int(str) beyond sys.int_max_str_digits (default 4300) with ValueError
+                    bound = None
+                    for atom, val in fs:
+                        for op, want, off in (("<=", True, 0), ("<", True, -1), (">", False, 0), (">=", False, -1)):
+                            pre = f"len({arg}) {op} "
+                            if atom.startswith(pre) and val is want:
+                                try:
+                                    k = self.repo.fold(ast.parse(atom[len(pre):], mode="eval").body, self.mod, self.ctx)
+                                except SyntaxError:
+                                    k = None
+                                if isinstance(k, int):
+                                    bound = k + off if bound is None else min(bound, k + off)
+                    if bound is not None and bound <= 4300:
+                        ok = f"dominated by str.isdecimal() and len <= {bound} (within int()'s digit limit)"
                 if ok is None:
                     ok = self.regex_digits(c.args[0])
-                return self.site([("ValueError", "int(str) for a non-decimal string")], c, ok)
+                return self.site([("ValueError", "int(str) for a non-decimal string or one beyond int()'s 4300-digit limit")], c, ok)
             return self.site([("ValueError", f"int({at or '?'})")], c, None)
         if name == "float":
             at = self.typ(c.args[0]) if c.args else ""
@@ -950,6 +965,21 @@ class _FuncAnalysis:
             return self.external_call(name, name, "", c, local)
         self.mr.external_unknown[name] = self.mr.external_unknown.get(name, 0) + 1
         return set()
+
+    def decode_site(self, c: ast.Call, args: list, local: tuple) -> set[Esc]:
+        """bytes.decode(enc[, errors]) / str(b, enc[, errors]): strict decoding of arbitrary octets raises unless the
+        codec is total (latin-1) or a non-strict error handler is given."""
+        kw = {k.arg: k.value for k in c.keywords}
+        enc_e = args[0] if args else kw.get("encoding")
+        err_e = args[1] if len(args) >= 2 else kw.get("errors")
+        enc = self.repo.fold(enc_e, self.mod, self.ctx) if enc_e is not None else "utf-8"
+        err = self.repo.fold(err_e, self.mod, self.ctx) if err_e is not None else "strict"
+        ok = None
+        if isinstance(enc, str) and enc.lower().replace("-", "_") in ("latin_1", "latin1", "iso_8859_1", "iso8859_1", "l1"):
+            ok = "latin-1 decodes every octet"
+        elif isinstance(err, str) and err in ("replace", "ignore", "backslashreplace", "surrogateescape", "namereplace", "xmlcharrefreplace"):
+            ok = f"errors={err!r} never raises"
+        return self.site([("UnicodeDecodeError", f"strict decoding with codec {enc!r}")], c, ok)
 
     def regex_digits(self, arg: ast.AST) -> str | None:
         """int(m.group(k)) / int(m[k]) where group k of the dominating successful regex match consists of digits only."""
@@ -1023,8 +1053,12 @@ class _FuncAnalysis:
                 elif s == "LITERAL":
                     if not 48 <= av <= 57:
                         return False
+                elif s == "BRANCH":
+                    if not all(digits_only(alt) for alt in av[1]):
+                        return False
                 elif s in ("MAX_REPEAT", "MIN_REPEAT"):
-                    if not digits_only(av[2]):
+                    # bounded digit count: int(str) raises ValueError beyond 4300 digits
+                    if not (isinstance(av[1], int) and int(av[1]) <= 1000) or not digits_only(av[2]) or any(str(o2) in ("MAX_REPEAT", "MIN_REPEAT") for o2, _ in av[2]):
                         return False
                 else:
                     return False
@@ -1057,11 +1091,7 @@ class _FuncAnalysis:
                         ok = "4 octets proven by the length guard"
             return self.site([(x, f"{name}()") for x in excs], c, ok)
         if attr == "decode":
-            enc = self.repo.fold(c.args[0], self.mod, self.ctx) if c.args else "utf-8"
-            kw = {k.arg for k in c.keywords}
-            if "errors" in kw or len(c.args) >= 2 or (isinstance(enc, str) and enc.lower().replace("-", "_") in ("latin_1", "latin1", "iso_8859_1", "iso8859_1")):
-                return set()
-            return self.site([("UnicodeDecodeError", f"bytes.decode({enc!r})")], c, None)
+            return self.decode_site(c, c.args, local)
         if attr == "encode" and kinds(recv_type) == {"str"}:
             enc = self.repo.fold(c.args[0], self.mod, self.ctx) if c.args else "utf-8"
             kw = {k.arg for k in c.keywords}
